@@ -5,6 +5,7 @@ import (
 	"go/token"
 	"go/types"
 	"sort"
+	"strings"
 
 	"golang.org/x/tools/go/ssa"
 
@@ -751,6 +752,7 @@ func c04(p *core.Program, r *core.Report) {
 
 	// ---- rule 4: reads only through io.ReadFull
 	readerDiscipline(p, r, "reader-discipline")
+	membersThroughPush(p, r, "members-through-push")
 
 	r.Assume("VTA call graph is sound for non-reflective calls; encoding/json reflection edges to (Un)MarshalJSON are added by hand")
 	r.Assume("io.ReadFull returns an error unless the buffer was filled (stdlib contract)")
@@ -811,4 +813,123 @@ func readerDiscipline(p *core.Program, r *core.Report, rule string) {
 			}
 		}
 	}
+}
+
+// membersThroughPush (C04): what the readers do with the member geometries they decode recursively.
+func membersThroughPush(p *core.Program, r *core.Report, rule string) {
+	r.Rule(rule, "in wkb.Read and ewkb.Read (and the helpers of their packages) a member geometry decoded by a recursive Read call is only type-asserted, handed to a Push method, compared with nil, or put into an error value: Push is where a member whose layout or stride differs from the container's is rejected, so a reader that takes the member's coordinates or offsets itself (FlatCoords, Ends, Coords ...) assembles containers whose stride does not match their data from a crafted input", 8)
+	for _, rel := range []string{"encoding/wkb", "encoding/ewkb"} {
+		read := p.SSAFunc(rel, "Read")
+		if read == nil {
+			continue
+		}
+		for _, fn := range pkgFuncs(p, rel) {
+			n := 0
+			for _, c := range eng.Calls(fn) {
+				if eng.StaticCallee(c) != read || c.Value() == nil {
+					continue
+				}
+				if fn != read && fn.Parent() == nil && !reachesFn(fn, read) {
+					continue
+				}
+				// only the recursive uses: calls of Read from inside Read or a helper that Read calls
+				if fn != read && !calledFrom(p, read, topLevel(fn), rel) {
+					continue
+				}
+				n++
+				key := fmt.Sprintf("%s/member#%d", short(fn), n)
+				bad := ""
+				seen := map[ssa.Value]bool{}
+				var follow func(v ssa.Value)
+				follow = func(v ssa.Value) {
+					if seen[v] || bad != "" {
+						return
+					}
+					seen[v] = true
+					for _, u := range eng.Referrers(v) {
+						switch x := u.(type) {
+						case *ssa.Extract:
+							if x.Index == 0 || v != c.Value() {
+								follow(x)
+							}
+						case *ssa.TypeAssert, *ssa.ChangeInterface, *ssa.MakeInterface, *ssa.Phi, *ssa.FieldAddr:
+							// (FieldAddr: the embedded struct of the member, on which promoted methods are called)
+							follow(x.(ssa.Value))
+						case *ssa.BinOp, *ssa.If, *ssa.Return, *ssa.Store, *ssa.DebugRef:
+							// nil tests, error values, results
+						case ssa.CallInstruction:
+							cc := x.Common()
+							name := ""
+							if cc.IsInvoke() {
+								name = cc.Method.Name()
+							} else if f := cc.StaticCallee(); f != nil {
+								name = f.Name()
+							}
+							isRecv := len(cc.Args) > 0 && cc.Args[0] == v && !cc.IsInvoke() && cc.StaticCallee() != nil && cc.StaticCallee().Signature.Recv() != nil
+							if cc.IsInvoke() && cc.Value == v {
+								isRecv = true
+							}
+							switch {
+							case name == "Push" && !isRecv:
+								// handed to the container
+							case isRecv && (name == "Layout" || name == "Stride" || name == "SRID" || name == "Empty" || name == "SetSRID" || strings.HasPrefix(name, "Num")):
+								// reading the member's metadata (for instance to compare layouts explicitly)
+							case isRecv:
+								bad = "the reader calls " + name + "() on a decoded member at " + p.Pos(x.Pos()) + " instead of handing the member to Push"
+							default:
+								// passed to a helper (push func value, error constructor): accepted
+							}
+						}
+					}
+				}
+				follow(c.Value())
+				r.Check(bad == "", rule, key, p.Pos(c.Pos()), true, "the member reaches only type assertions, Push, nil tests and error values", bad+": Push's layout/stride check is bypassed")
+			}
+		}
+	}
+}
+
+// calledFrom: target is reachable from `from` through static calls inside package rel (two levels).
+func calledFrom(p *core.Program, from, target *ssa.Function, rel string) bool {
+	seen := map[*ssa.Function]bool{}
+	var walk func(f *ssa.Function, d int) bool
+	walk = func(f *ssa.Function, d int) bool {
+		if f == target {
+			return true
+		}
+		if seen[f] || d > 3 {
+			return false
+		}
+		seen[f] = true
+		for _, c := range eng.Calls(f) {
+			if g := eng.StaticCallee(c); g != nil && core.FnPkgPath(g) == mod+"/"+rel {
+				if walk(g, d+1) {
+					return true
+				}
+			}
+			for _, a := range c.Common().Args {
+				if mc, ok := a.(*ssa.MakeClosure); ok {
+					if g, _ := mc.Fn.(*ssa.Function); g != nil && walk(g, d+1) {
+						return true
+					}
+				}
+			}
+		}
+		for _, a := range f.AnonFuncs {
+			if walk(a, d+1) {
+				return true
+			}
+		}
+		return false
+	}
+	return walk(from, 0)
+}
+
+func reachesFn(from, target *ssa.Function) bool {
+	for _, c := range eng.Calls(from) {
+		if eng.StaticCallee(c) == target {
+			return true
+		}
+	}
+	return false
 }
